@@ -219,8 +219,13 @@ def scenarios(rng: random.Random, tier: str):
         tmo = rng.choice([0, 1, 2, 3])
         nested = []
         for c, nm in conn_ready:
-            beh = rng.choice(["dpa", "dpa", "never", "eof", "dpa_then_more", "dwa_then_dpa", "dpa_err"])
-            if beh == "dpa":
+            beh = rng.choice(["dpa", "dpa", "never", "eof", "dpa_then_more", "dwa_then_dpa", "dpa_err", "rerr", "rerr_soft_dpa"])
+            if beh == "rerr":            # the transport fails with an errno of the hard class instead of an answer
+                nested.append(f"rerr_{c}_" + rng.choice(["hard", "hardT", "hardU", "hardN", "hardR", "hardO"]))
+            elif beh == "rerr_soft_dpa":  # a spurious wake-up (soft errno), then the answer
+                nested.append(f"rerr_{c}_" + rng.choice(["soft", "softB", "softS", "softI", "softW"]))
+                nested.append(f"rx_{c}_" + nodegen.dpa(n(), n(), nm))
+            elif beh == "dpa":
                 nested.append(f"rx_{c}_" + nodegen.dpa(n(), n(), nm))
             elif beh == "eof":
                 nested.append(f"eof_{c}")
@@ -238,7 +243,7 @@ def scenarios(rng: random.Random, tier: str):
             c, nm = rng.choice(conn_ready)
             evs.append(f"block {c} 1")
             blocked.append(c)
-            nested = [x for x in nested if not x.startswith((f"rx_{c}_", f"eof_{c}"))]
+            nested = [x for x in nested if not x.startswith((f"rx_{c}_", f"eof_{c}", f"rerr_{c}_"))]
             nested += [f"rx_{c}_" + nodegen.dpa(n(), n(), nm), f"block_{c}_0"]
         if rng.random() < 0.3:
             nested.append("acc")
@@ -248,6 +253,11 @@ def scenarios(rng: random.Random, tier: str):
             nested.append("adv_3")
         evs.append(f"stop {force} {tmo} " + " ".join(nested))
         out.append(CFG.replace("NODE ", f"NODE addrs={rng.choice([1, 1, 2, 3])};") + " | " + " | ".join(evs))
+    # a transport fault (every errno class) on one peer's socket inside the window, the other peer answers promptly
+    for kind in ("hardT", "hardU", "hardN", "hard", "softB", "softI"):
+        pre2 = (CFG + " | start fail | acc | rx 1 " + nodegen.cer("peer1.x", "4", n(), n()) + " | acc | rx 2 " +
+                nodegen.cer("peer2.x", "4", n(), n()))
+        out.append(pre2 + f" | stop 0 4 rerr_1_{kind} rx_2_{nodegen.dpa(n(), n(), 'peer2.x')} rx_1_{nodegen.dpa(n(), n(), 'peer1.x')}")
     # a request of the peer still unanswered by the application when the DPA arrives: closed then all the same
     for tmo in (3, 5):
         out.append(CFG + " | start fail | acc | rx 1 " + nodegen.cer("peer1.x", "4", n(), n()) + " | rx 1 " + nodegen.ccr(n(), n(), "peer1.x") +
